@@ -41,7 +41,14 @@ func c12Producer(r *Run, t *tape.Tape) {
 		key = pickKey(t)
 	}
 	// base headers: conforming most of the time, sometimes with governed labels
-	base := genLayer(t, LayerOpts{MaxExtra: 5})
+	lo := LayerOpts{MaxExtra: 5}
+	if t.Bool(1, 2, "c12.base.alg") {
+		// a base header that already names the signer's algorithm (e.g. one
+		// taken over from an earlier, decoded envelope)
+		a := key.Alg
+		lo.Alg = &a
+	}
+	base := genLayer(t, lo)
 	class := "conforming-base"
 	if t.Bool(2, 3, "c12.base.safe") {
 		base = envelopeSafe(base)
@@ -63,6 +70,15 @@ func c12Producer(r *Run, t *tape.Tape) {
 	if t.Bool(1, 4, "c12.rawprot") {
 		// caller-supplied raw protected bytes (documented: discarded)
 		h.RawProtected = []byte{0x43, 0xa1, 0x01, 0x26}
+		if t.Bool(2, 3, "c12.rawprot.consistent") {
+			// consistent with the parsed map, as after decoding
+			var raw []byte
+			var err error
+			r.Lib(func() { raw, err = h.Protected.MarshalCBOR() })
+			if err == nil {
+				h.RawProtected = raw
+			}
+		}
 		class += "+rawprot"
 	}
 	if t.Bool(1, 4, "c12.rawunprot") {
